@@ -324,7 +324,12 @@ class EditStream(HTMLHandlerBase):
         current_stream.title = params['title']
         context = self.create_context(current_stream.title, False)
         if models.MediaFile.count(stream=current_stream) == 0:
-            current_stream.directory = params['directory']
+            other = models.Stream.get(directory=params.get('directory'))
+            if other is not None and other.pk != current_stream.pk:
+                return flask.make_response(
+                    f'Directory "{html.escape(other.directory)}" is already in use', 400)
+            if 'directory' in params:
+                current_stream.directory = params['directory']
         current_stream.marlin_la_url = str_or_none(params['marlin_la_url'])
         current_stream.playready_la_url = str_or_none(params['playready_la_url'])
         current_stream.timing_reference = None
